@@ -34,6 +34,9 @@ func Run(c *ev.Ctx) int {
 		if lane("A2") {
 			laneSelect(c)
 		}
+		if lane("A3") {
+			laneRotation(c)
+		}
 	}
 	if os.Getenv("C12_SKIP_E2E") == "" && lane("B") {
 		laneE2E(c)
